@@ -1338,6 +1338,11 @@ pub fn oracle_scenario(prop: &str, a: &[String]) -> Option<Verdict> {
             let v = u32::from_str_radix(a.get(2)?, 16).ok()?;
             Some(crate::round3::oracle_header_code_any_version(code, v.to_be_bytes()))
         }
+        (_, Some("failed-write-then-finalize")) => Some(crate::round7::oracle_failed_write_then_finalize(a.get(1)?, a.get(2)?.parse().ok()?, a.get(3)?.parse().ok()?)),
+        (_, Some("bulk-write-faults")) => Some(crate::round7::oracle_bulk_write_faults()),
+        (_, Some("reverse-truncated")) => Some(crate::round7::oracle_reverse_truncated()),
+        (_, Some("sparse-record-numbers")) => Some(crate::round7::oracle_sparse_record_numbers()),
+        (_, Some("after-large-dataset")) => Some(crate::round7::oracle_after_large_dataset()),
         (_, Some("path-foreign-layout")) => Some(crate::round6::oracle_path_foreign_layout()),
         (_, Some("path-trailing")) => Some(crate::round6::oracle_path_trailing()),
         (_, Some("path-uppercase")) => Some(crate::round6::oracle_path_uppercase()),
